@@ -35,7 +35,7 @@ RULE = ("each run is a history of 1-12 operations drawn from get (with/without q
         "certificate, redirect or store mutation was exercised")
 PROBES = ["cert_changed_detected", "unreadable_cert_presented", "redirect_hop_checked",
           "first_use_pinned", "pinned_match", "import_applied", "revoke_then_refetch", "tofu_off",
-          "upload_checked", "ec_cert", "first_use_on_failing_endpoint", "overlapping_first_use"]
+          "upload_checked", "ec_cert", "first_use_on_failing_endpoint", "overlapping_first_use", "near_miss_pin_imported"]
 COMPONENTS = {
     "real": ["nauyaca.client.session.GeminiClient (get/upload/delete, redirects)",
              "nauyaca.client.protocol", "nauyaca.security.tofu.TOFUDatabase on a real sqlite file",
@@ -65,7 +65,7 @@ def run_one(ch):
     nops = 1 + ch.choose("nops", 12)
     model = {}
     st = {"hist": [], "changed": 0, "unreadable": 0, "redir": 0, "first": 0, "match": 0,
-          "import": 0, "mutation": 0, "upload": 0, "refetch": 0, "failing": 0, "concurrent": 0}
+          "import": 0, "mutation": 0, "upload": 0, "refetch": 0, "failing": 0, "concurrent": 0, "nearmiss": 0}
     revoked = set()
 
     def endpoint(label):
@@ -236,7 +236,14 @@ def run_one(ch):
                 ents = {}
                 for _ in range(n):
                     k = endpoint("imp")
-                    ents[k] = fx.fp(ch.pick("impcert", fx.SERVER_CERTS))
+                    v = fx.fp(ch.pick("impcert", fx.SERVER_CERTS))
+                    # near-miss pins: equal to a real fingerprint except for one late digit
+                    nm = ch.choose("nearmiss", 4, [5, 1, 1, 1])
+                    if nm:
+                        pos = {1: len(v) - 1, 2: len(v) - 20, 3: 30}[nm]
+                        v = v[:pos] + ("0" if v[pos] != "0" else "1") + v[pos + 1:]
+                        st["nearmiss"] += 1
+                    ents[k] = v
                 data = {"hosts": {f"{k[0]}:{k[1]}": {
                     "hostname": k[0], "port": k[1], "fingerprint": v,
                     "first_seen": "2024-01-01T00:00:00+00:00",
@@ -328,7 +335,7 @@ def run_one(ch):
     st_map = {"cert_changed_detected": "changed", "unreadable_cert_presented": "unreadable",
               "redirect_hop_checked": "redir", "first_use_pinned": "first", "pinned_match": "match",
               "import_applied": "import", "upload_checked": "upload", "revoke_then_refetch": "refetch",
-              "first_use_on_failing_endpoint": "failing", "overlapping_first_use": "concurrent"}
+              "first_use_on_failing_endpoint": "failing", "overlapping_first_use": "concurrent", "near_miss_pin_imported": "nearmiss"}
     for probe, k in st_map.items():
         if st[k]:
             res.stats[probe] += 1
